@@ -128,14 +128,14 @@ def install(tree_invariant=True):
                       (UnconditionalSMCSampler, "UnconditionalSMCSampler")):
         if "sample_tree" in cls.__dict__:
             fn = cls.__dict__["sample_tree"]
-            fn = icontract.ensure(_sampler_post(name), error=PostBroken)(fn)
-            fn = icontract.snapshot(_snap_idxs, name="idxs")(fn)
+            fn = icontract.ensure(_sampler_post(name), error=PostBroken, enabled=True)(fn)
+            fn = icontract.snapshot(_snap_idxs, name="idxs", enabled=True)(fn)
             setattr(cls, "sample_tree", fn)
-    ConditionalSMCSampler.__init__ = icontract.ensure(_retained_post, error=PostBroken)(ConditionalSMCSampler.__init__)
+    ConditionalSMCSampler.__init__ = icontract.ensure(_retained_post, error=PostBroken, enabled=True)(ConditionalSMCSampler.__init__)
     if tree_invariant:
         for m in MUTATORS:
-            setattr(Tree, m, icontract.ensure(_mutator_post(m), error=PostBroken)(Tree.__dict__[m]))
+            setattr(Tree, m, icontract.ensure(_mutator_post(m), error=PostBroken, enabled=True)(Tree.__dict__[m]))
         for m in PRODUCERS:
-            setattr(Tree, m, icontract.ensure(_result_post(m), error=PostBroken)(Tree.__dict__[m]))
+            setattr(Tree, m, icontract.ensure(_result_post(m), error=PostBroken, enabled=True)(Tree.__dict__[m]))
         fd = Tree.__dict__["from_dict"].__func__
-        Tree.from_dict = classmethod(icontract.ensure(_result_post("from_dict"), error=PostBroken)(fd))
+        Tree.from_dict = classmethod(icontract.ensure(_result_post("from_dict"), error=PostBroken, enabled=True)(fd))
